@@ -63,8 +63,8 @@ REQUIRED_COUNTERS = [
     "hash", "hash_incremental", "hmac", "hmac_validate", "cmac", "cmac_validate", "hkdf", "crc",
     "counter", "keystore_kdf", "sb31_kdf", "monitor_inverse_law", "repo_tests_monitor_evaluations",
 ]
-CASE_TIMEOUT_S = 600
-WATCHDOG_S = {"quick": 900, "thorough": 3600}
+CASE_TIMEOUT_S = 900
+WATCHDOG_S = {"quick": 1500, "thorough": 5400}
 MAX_JOBS = 16
 
 MASK32 = 0xFFFFFFFF
@@ -246,7 +246,7 @@ CRC_LABELS = ["crc32", "crc32-mpeg", "crc16-xmodem"]
 
 
 def cases(tier, seed):
-    reps = 8 if tier == "thorough" else 1
+    reps = 12 if tier == "thorough" else 1
     for k in range(reps):
         for ks in (16, 24, 32):
             yield {"kind": "ecb", "ks": ks, "k": k}
@@ -1206,6 +1206,7 @@ def _case_counter_directed(case, ctx, S):
 
 def _case_counter(case, ctx, S):
     from spsdk.exceptions import SPSDKError
+    from spsdk.utils.misc import Endianness
 
     rng, t = ctx.rng, Tally(ctx)
     n = 0
@@ -1227,8 +1228,6 @@ def _case_counter(case, ctx, S):
         cut = rng.randrange(1, nblocks)
         start = rng.randrange(0, MASK32 - 16)
         nonce = rb(rng, 12) + start.to_bytes(4, "big")
-        from spsdk.utils.misc import Endianness
-
         c = S.Counter(nonce, ctr_byteorder_encoding=Endianness.BIG)
         whole = S.aes_ctr_encrypt(key, m, c.value)
         first = S.aes_ctr_encrypt(key, m[: 16 * cut], c.value)
@@ -1557,6 +1556,9 @@ class _FileRec:
 
     def count(self, name, n=1):
         self.counts[name] = self.counts.get(name, 0) + n
+        self.ticks = getattr(self, "ticks", 0) + 1
+        if self.ticks % 500 == 0:  # snapshots: the last record of a process wins (survives a killed child)
+            self.emit({"t": "counters", "pid": os.getpid(), "v": self.counts, "violations": self.nviol})
 
 
 _PLUGIN = {"rec": None}
@@ -1599,11 +1601,11 @@ def _case_repo_tests(case, ctx):
     cmd = [sys.executable, "-m", "pytest", "-q", "--no-header", "-p", "no:cacheprovider", "-p", "vf.props.c09",
            "--continue-on-collection-errors", "-n", "8" if ctx.tier == "thorough" else "4", "--basetemp", os.path.join(ctx.workdir, "pytest-tmp")] + paths
     try:
-        r = subprocess.run(cmd, cwd=repo, env=env, capture_output=True, text=True, timeout=CASE_TIMEOUT_S - 120, check=False)
+        r = subprocess.run(cmd, cwd=repo, env=env, capture_output=True, text=True, timeout=CASE_TIMEOUT_S - 240, check=False)
         rc, tail = r.returncode, (r.stdout or "")[-300:].replace("\n", " | ")
     except subprocess.TimeoutExpired:
         rc, tail = None, "pytest child exceeded the wall-clock limit"
-    counts: dict = {}
+    per_pid: dict = {}
     started = []
     nviol = 0
     if os.path.exists(log):
@@ -1616,11 +1618,14 @@ def _case_repo_tests(case, ctx):
                 if ev["t"] == "start":
                     started.append(ev["spsdk"])
                 elif ev["t"] == "counters":
-                    for k, v in ev["v"].items():
-                        counts[k] = counts.get(k, 0) + v
+                    per_pid[ev.get("pid")] = ev["v"]
                 elif ev["t"] == "viol":
                     nviol += 1
                     ctx.violation(ev["mech"], {"under": "repository tests", "test": ev.get("test"), "detail": ev.get("detail")})
+    counts: dict = {}
+    for v in per_pid.values():
+        for k, x in v.items():
+            counts[k] = counts.get(k, 0) + x
     if any(not s.startswith(repo + os.sep) for s in started):
         raise core.Inconclusive(f"pytest child imported spsdk from {started[:2]}, not from {repo}")
     for k, v in counts.items():
